@@ -1036,6 +1036,177 @@ Lemma ours_example :
   lookup 10%N (local_map (run (init 2) multi) 1) = Some 200%N.
 Proof. vm_compute. repeat split; reflexivity. Qed.
 
+(* ------------------------------------------------------------------ rejections only when pushes overlap *)
+Lemma fold_tri_yes_intro : forall (g : nid -> tri) l p,
+  In p l -> g p = Yes -> fold_right (fun p acc => tri_or (g p) acc) No l = Yes.
+Proof.
+  induction l as [|x r IH]; intros p Hp Hg; [contradiction|]. cbn [fold_right].
+  destruct Hp as [->|Hp].
+  - rewrite Hg. reflexivity.
+  - rewrite (IH p Hp Hg). destruct (g x); reflexivity.
+Qed.
+
+Lemma anc_complete : forall st a b, wf_store st -> reach st a b -> forall f, b < f -> anc f st a b = Yes.
+Proof.
+  intros st a b Hwf H. induction H as [a|a b n p Hn Hp Hr IH]; intros f Hf.
+  - apply anc_refl.
+  - destruct f as [|f]; [lia|]. cbn [anc]. destruct (Nat.eqb a b); auto. rewrite Hn.
+    apply fold_tri_yes_intro with (p := p); auto. apply IH. destruct (Hwf b n Hn p Hp). lia.
+Qed.
+
+Lemma reach_trans : forall st a b c, reach st a b -> reach st b c -> reach st a c.
+Proof. intros st a b c H1 H2. induction H2; auto. eapply reach_step; eauto. Qed.
+
+Lemma remote_no_push : forall s x, is_push x = false -> remote (exec s x) = remote s.
+Proof.
+  intros s x H. destruct x as [c k v|c|c|c]; try discriminate.
+  - cbn [exec]. destruct (nth_error (clones s) c); auto.
+  - cbn [exec]. destruct (nth_error (clones s) c); auto. destruct (remote s) eqn:R; cbn [set_clone remote]; auto.
+  - apply remote_MergeLocal.
+Qed.
+
+(* a clone's notes tip only ever moves to a descendant *)
+Lemma local_reach_shape : forall s x s' c0 lo, wf s -> shape s x s' -> local_of s c0 = Some lo ->
+  exists l', local_of s' c0 = Some l' /\ reach (store_of s') lo l'.
+Proof.
+  intros s x s' c0 lo Hwf Sh Hl0. pose proof Hwf as (Hst & Hcl & Hrm & Hfo).
+  shape_cases Sh; try (exists lo; split; [exact Hl0|constructor]);
+    assert (Lc : c < length (clones s)) by (apply nth_error_Some; congruence);
+    unfold set_clone, add_node; cbn [store_of clones remote fuel_out]; rewrite local_of_set by auto;
+    (destruct (Nat.eqb c c0) eqn:E;
+     [apply Nat.eqb_eq in E; subst c0; unfold local_of in Hl0; rewrite Hc in Hl0; cbn [local]
+     |exists lo; split; [exact Hl0|try apply reach_snoc; constructor]]).
+  - exists (length (store_of s)). split; auto. rewrite Hl0. cbn [par].
+    eapply reach_step; [apply nth_error_snoc_eq|cbn [parents]; now left|constructor].
+  - exists lo. split; auto. constructor.
+  - congruence.
+  - exists t. split; auto. replace lo with l by congruence. eapply anc_sound; eauto.
+  - exists (length (store_of s)). split; auto. replace lo with l by congruence.
+    eapply reach_step; [apply nth_error_snoc_eq|cbn [parents]; now left|constructor].
+Qed.
+
+Lemma tracking_of_set : forall s st' c cl c' r f,
+  c < length (clones s) ->
+  tracking_of (mkState st' (set_nth (clones s) c cl) r f) c' = if Nat.eqb c c' then tracking cl else tracking_of s c'.
+Proof.
+  intros. unfold tracking_of. cbn [clones]. destruct (Nat.eqb c c') eqn:E.
+  - apply Nat.eqb_eq in E. subst. now rewrite nth_set_same.
+  - apply Nat.eqb_neq in E. now rewrite nth_set_other.
+Qed.
+
+(* while nobody pushes, a tracking ref that equals the remote tip stays equal to it *)
+Lemma tracking_kept_shape : forall s x s' c0 r0, shape s x s' -> is_push x = false ->
+  remote s = Some r0 -> tracking_of s c0 = Some r0 -> tracking_of s' c0 = Some r0.
+Proof.
+  intros s x s' c0 r0 Sh Np Hr0 Ht0.
+  shape_cases Sh; auto; try discriminate;
+    assert (Lc : c < length (clones s)) by (apply nth_error_Some; congruence);
+    unfold set_clone, add_node; cbn [store_of clones remote fuel_out]; rewrite tracking_of_set by auto;
+    (destruct (Nat.eqb c c0) eqn:E; [apply Nat.eqb_eq in E; subst c0; cbn [tracking]|exact Ht0]);
+    unfold tracking_of in Ht0; rewrite Hc in Ht0; congruence.
+Qed.
+
+(* MergeLocal puts the clone's tip on top of its tracking ref *)
+Lemma merge_reaches_tracking : forall s c t, wf s -> tracking_of s c = Some t ->
+  exists l', local_of (exec s (MergeLocal c)) c = Some l' /\ reach (store_of (exec s (MergeLocal c))) t l'.
+Proof.
+  intros s c t Hwf Ht0. pose proof Hwf as (Hst & Hcl & Hrm & Hfo).
+  unfold tracking_of in Ht0. destruct (nth_error (clones s) c) as [cl|] eqn:Hc; [|discriminate].
+  assert (Lc : c < length (clones s)) by (apply nth_error_Some; congruence).
+  destruct (Hcl c cl Hc) as [Vl Vt]. rewrite Ht0 in Vt. cbn [valid_ref] in Vt.
+  cbn [exec]. rewrite Hc, Ht0. destruct (local cl) as [l|] eqn:Hl.
+  - cbn [valid_ref] in Vl. pose proof (merge_local_spec _ l t Hst Vl Vt) as M.
+    destruct (merge_local (store_of s) l t) as [| |nd|]; try contradiction.
+    + exists l. split; [unfold local_of; now rewrite Hc|]. eapply anc_sound; eauto.
+    + exists t. unfold set_clone. cbn [store_of]. rewrite local_of_set, Nat.eqb_refl by auto.
+      split; auto. constructor.
+    + destruct M as [bm [-> _]]. exists (length (store_of s)).
+      unfold set_clone, add_node. cbn [store_of clones remote fuel_out].
+      rewrite local_of_set, Nat.eqb_refl by auto. split; auto.
+      eapply reach_step; [apply nth_error_snoc_eq|cbn [parents]; right; now left|constructor].
+  - exists t. unfold set_clone. cbn [store_of]. rewrite local_of_set, Nat.eqb_refl by auto.
+    split; auto. constructor.
+Qed.
+
+Definition on_top (s : state) (c : nat) (r : nid) : Prop :=
+  remote s = Some r /\ exists l, local_of s c = Some l /\ reach (store_of s) r l.
+
+Lemma on_top_run : forall q s c r, wf s -> no_push q = true -> on_top s c r -> on_top (run s q) c r.
+Proof.
+  induction q as [|x q IH]; intros s c r Hwf Np H; auto.
+  cbn [no_push forallb] in Np. apply andb_true_iff in Np as [Nx Nq]. apply negb_true_iff in Nx.
+  cbn [run fold_left]. apply IH; auto. { now apply wf_exec. }
+  destruct H as [Hr [l [Hl Hre]]]. split. { now rewrite remote_no_push. }
+  pose proof (exec_shape s x Hwf) as Sh.
+  destruct (local_reach_shape s x _ c l Hwf Sh Hl) as [l' [Hl' Hre']].
+  exists l'. split; auto. eapply reach_trans; [|exact Hre'].
+  assert (Ext : forall a b, reach (store_of s) a b -> reach (store_of (exec s x)) a b).
+  { intros a b Hab. clear - Sh Hab. shape_cases Sh; auto; cbn [set_clone add_node set_remote store_of]; auto;
+      now apply reach_snoc. }
+  auto.
+Qed.
+
+Lemma tracking_kept_run : forall q s c r, wf s -> no_push q = true ->
+  remote s = Some r -> tracking_of s c = Some r ->
+  remote (run s q) = Some r /\ tracking_of (run s q) c = Some r.
+Proof.
+  induction q as [|x q IH]; intros s c r Hwf Np Hr Ht; auto.
+  cbn [no_push forallb] in Np. apply andb_true_iff in Np as [Nx Nq]. apply negb_true_iff in Nx.
+  cbn [run fold_left]. apply IH; auto.
+  - now apply wf_exec.
+  - now rewrite remote_no_push.
+  - eapply tracking_kept_shape; eauto. now apply exec_shape.
+Qed.
+
+Lemma remote_none_run : forall q s, no_push q = true -> remote s = None -> remote (run s q) = None.
+Proof.
+  induction q as [|x q IH]; intros s Np Hr; auto.
+  cbn [no_push forallb] in Np. apply andb_true_iff in Np as [Nx Nq]. apply negb_true_iff in Nx.
+  cbn [run fold_left]. apply IH; auto. now rewrite remote_no_push.
+Qed.
+
+(* a push whose pre-push fetch and merge happened with no notes push (by anybody) in between is
+   never rejected, whatever else is interleaved: rejections happen only when pushes overlap *)
+Lemma no_reject_without_overlap : forall n pre mid1 mid2 c, c < n ->
+  no_push mid1 = true -> no_push mid2 = true ->
+  let s := run (init n) (pre ++ [FetchTracking c] ++ mid1 ++ [MergeLocal c] ++ mid2) in
+  push_outcome s c = PCreated \/ push_outcome s c = PUpdated \/ push_outcome s c = PNoLocal.
+Proof.
+  intros n pre mid1 mid2 c Hc N1 N2 s. fold (S0 n (pre ++ [FetchTracking c] ++ mid1 ++ [MergeLocal c] ++ mid2)) in s.
+  assert (Es : s = run (exec (run (exec (S0 n pre) (FetchTracking c)) mid1) (MergeLocal c)) mid2).
+  { unfold s. rewrite S0_app, !run_app. reflexivity. }
+  set (s0 := S0 n pre) in *. assert (W0 : wf s0) by apply wf_S0.
+  assert (L0 : c < length (clones s0)) by (unfold s0; now rewrite len_S0).
+  set (s1 := exec s0 (FetchTracking c)) in *. assert (W1 : wf s1) by (apply wf_exec; auto).
+  set (s2 := run s1 mid1) in *. assert (W2 : wf s2) by (apply wf_run; auto).
+  set (s3 := exec s2 (MergeLocal c)) in *. assert (W3 : wf s3) by (apply wf_exec; auto).
+  assert (Ws : wf s) by (rewrite Es; apply wf_run; auto).
+  assert (Ls : c < length (clones s)) by (unfold s; now rewrite len_S0).
+  destruct (nth_error (clones s) c) as [cl|] eqn:Hcl. 2: { apply nth_error_None in Hcl. lia. }
+  unfold push_outcome. rewrite Hcl. destruct (local cl) as [l|] eqn:Hl; auto.
+  destruct (remote s0) as [r|] eqn:Hr0.
+  - (* the remote has notes: tracking = r until the merge, then the tip stays on top of r *)
+    assert (T1 : remote s1 = Some r /\ tracking_of s1 c = Some r).
+    { unfold s1. cbn [exec]. destruct (nth_error (clones s0) c) as [cl0|] eqn:Hc0.
+      2: { apply nth_error_None in Hc0. lia. }
+      rewrite Hr0. unfold set_clone. cbn [remote]. split; auto.
+      rewrite tracking_of_set, Nat.eqb_refl by auto. reflexivity. }
+    destruct T1 as [R1 T1].
+    destruct (tracking_kept_run mid1 s1 c r W1 N1 R1 T1) as [R2 T2]. fold s2 in R2, T2.
+    destruct (merge_reaches_tracking s2 c r W2 T2) as [l3 [Hl3 Re3]]. fold s3 in Hl3, Re3.
+    assert (OT : on_top s3 c r).
+    { split; [unfold s3; now rewrite remote_MergeLocal|]. exists l3. auto. }
+    apply (on_top_run mid2 s3 c r W3 N2) in OT. rewrite <- Es in OT.
+    destruct OT as [Rs [l' [Hl' Re']]]. rewrite Rs.
+    unfold local_of in Hl'. rewrite Hcl, Hl in Hl'. inversion Hl'. subst l'.
+    destruct Ws as (Hst & Hcv & _). destruct (Hcv c cl Hcl) as [Vl _]. rewrite Hl in Vl. cbn [valid_ref] in Vl.
+    rewrite (anc_complete _ r l Hst Re' _ Vl). auto.
+  - assert (Rs : remote s = None).
+    { rewrite Es. apply remote_none_run; auto. unfold s3. rewrite remote_MergeLocal.
+      apply remote_none_run; auto. unfold s1. now rewrite remote_no_push. }
+    rewrite Rs. auto.
+Qed.
+
 (* ------------------------------------------------------------------ packaged statements *)
 Lemma no_loss : forall (n : nat) (sched : list step),
   (forall o k v, In o (holders (run (init n) sched)) ->
